@@ -4,6 +4,7 @@ import ewrap
 import kinds
 import i64table
 import tables
+import estep
 
 LEVEL = "E-TABLE over mtbdd::terminal_bin"
 
@@ -31,4 +32,11 @@ def run(ctx):
                 "follow IEEE semantics.")
     n = i64table.run(ctx, F)
     ctx.floor("E-TABLE.i64", "abstract cases of the I64 operators", n, 140)
-    ctx.not_decided = "the recursive step, non-overflow arithmetic of the terminal types, Div rounding, float behaviour"
+    ctx.explain("E-TABLE.step: the recursive (Shannon expansion) step is interpreted on structured abstract operands -- inner nodes "
+                "with opaque or nested children in every relative level configuration (and every complement-tag "
+                "combination for BCDDs); recursive calls are builtins with the meaning of the callee, reduce yields a node. "
+                "The returned edge must denote the operation for all values of atoms and decision variables, the new "
+                "node must respect the variable order, and a cache entry must be valid for its key.")
+    n = estep.run(ctx, F, kinds=("mtbdd",))
+    ctx.floor("E-TABLE.step", "situations of the recursive step (apply_bin, apply_ite)", n, 50)
+    ctx.not_decided = "non-overflow arithmetic of the terminal types, Div rounding, float behaviour, restrict"
